@@ -209,7 +209,7 @@ def gen_fornav_case(r, big=False):
     return {"cols": hex2(cols), "rows": hex2(rows), "data": hex2(data), "dtype": dtype, "rps": gen_rps(r, R),
             "params": p, "mwm": mwm, "grid": [h, w], "fill": H(fill), "kind": kind, "const": const,
             "has_fill": has_fill, "geo": geo, "ws_wsm": ws_wsm(p), "layout": gen_layout(r, 0.55),
-            "geo_layout": gen_layout(r, 0.2)}
+            "geo_layout": gen_layout(r, 0.2), "masked": r.random() < 0.25}
 
 
 def lonlat_of(area, cols, rows):
@@ -250,6 +250,12 @@ def gen_scene(r, big=False, dropped=False, many_chunks=False, force_mwm=None):
                "kind": kind, "const": const, "has_fill": has_fill, "grid": [h, w]})
     sc["ws_wsm"] = ws_wsm(sc["params"])
     sc["layout"], sc["geo_layout"] = gen_layout(r, 0.5), gen_layout(r, 0.3)
+    sc["persist"] = r.random() < 0.45
+    sc["probe_rows"] = r.randint(1, R)
+    if not big and r.random() < 0.4:       # several resample() calls on one resampler object
+        sc["history"] = [{"scale": r.choice([1.0, 2.0, -1.0, 0.5]), "shift": r.choice([0.0, 1.0, -8.0]),
+                          "out_chunks": [rand_chunks(r, h), rand_chunks(r, w)], "mwm": r.random() < 0.3,
+                          "persist": r.random() < 0.5} for _ in range(r.randint(2, 3))]
     return sc
 
 
@@ -321,7 +327,9 @@ def known_scene():
     sc.update({"lons": hex2(lon), "lats": hex2(lat), "data": hex2(data), "dtype": "f8", "rps": 2,
                "params": dict(DEFAULT_PARAMS), "mwm": False, "fill": H(NAN), "in_rows": 2, "out_chunks": [[6, 6], [6, 6]],
                "legacy": True, "want_sub_fp": True, "want_fp": True, "kind": "ramp", "const": None, "has_fill": False,
-               "grid": [12, 12], "ws_wsm": 0.01})
+               "grid": [12, 12], "ws_wsm": 0.01, "persist": True, "probe_rows": 3,
+               "history": [{"scale": 1.0, "shift": 0.0, "out_chunks": [[12], [12]], "mwm": False, "persist": True},
+                           {"scale": 2.0, "shift": 1.0, "out_chunks": [[5, 7], [12]], "mwm": False, "persist": False}]})
     return sc
 
 
@@ -422,6 +430,19 @@ def judge_fornav(case, o, pfx="C08.fornav"):
     one, ws = o["oneshot"], o["ws"]
     smin = smin_eff(p)
     # memory layout of the inputs must not matter: same values -> same grid as the run on a C-contiguous copy
+    mk = o.get("oneshot_masked")
+    if mk is not None and "error" not in one:
+        if "error" in mk:
+            return [(pfx + ".masked", "masked-array input: fornav raised %s (%s); the plain array with the same valid pixels works" % (mk["error"], mk.get("msg")))], tab
+        ga, gb = arr(mk["out"], (h, w)), arr(one["out"], (h, w))
+        same = (ga == gb) | ((ga != ga) & (gb != gb))
+        msk = np.array(mk["mask"]).reshape(h, w)
+        want = np.array([[isfill(v, fill) for v in row] for row in gb])
+        if not same.all() or not mk["is_masked"] or (msk != want).any():
+            bad = ~same | (msk != want)
+            rr, cc = [int(v[0]) for v in np.nonzero(bad)] if bad.any() else (0, 0)
+            return [(pfx + ".masked", "masked-array input (invalid pixels masked, stored value 12345): cell (%d,%d) = %r masked=%s; the plain array gives %r (fill %r)"
+                     % (rr, cc, ga[rr, cc], msk[rr, cc], gb[rr, cc], fill))], tab
     for alt, lay, what in (("oneshot_c", case.get("layout"), "data"), ("oneshot_geo", case.get("geo_layout"), "cols/rows")):
         ref = o.get(alt)
         if ref is None:
@@ -519,6 +540,31 @@ def judge_scene(case, o):
     R, C = data.shape
     one = o["fornav"]["oneshot"]
     dk = o["dask"]
+    # input chunks are scan aligned
+    nc = o.get("new_chunks")
+    if isinstance(nc, list):
+        if nc[0] % case["rps"] != 0 or nc[0] < case["rps"] or nc[1] != C:
+            fails.append(("C08.dask.scan_alignment", "_new_chunks gives row chunk %d, column chunk %d for rows_per_scan=%d, %d columns" % (nc[0], nc[1], case["rps"], C)))
+    elif isinstance(nc, dict):
+        fails.append(("C08.dask.scan_alignment", "_new_chunks raised %s" % nc))
+    np_ = o.get("dask_nopersist")
+    if np_ is not None and "error" not in np_:
+        if "error" in dk:
+            fails.append(("C08.dask.persist", "persist=True: DaskEWAResampler raised %s: %s; persist=False works (placeholders %s)" % (dk["error"], dk.get("msg"), o.get("placeholders"))))
+            return fails, info
+        pa, pb = arr(dk["out"], (h, w)), arr(np_["out"], (h, w))
+        if not ((pa == pb) | ((pa != pa) & (pb != pb))).all() and case.get("layout", "c") == "c" and case.get("geo_layout", "c") == "c":
+            fails.append(("C08.dask.persist", "persist=True and persist=False give different grids (placeholders %s)" % o.get("placeholders")))
+    for ci, ent in enumerate(o.get("history") or []):
+        if "error" in ent:
+            continue
+        sa, fr = ent["same"], ent["fresh"]
+        if ("error" in sa) != ("error" in fr):
+            fails.append(("C08.dask.history", "call %d on a reused resampler: %s, on a fresh resampler: %s (calls %s)" % (ci, sa.get("error", "a grid"), fr.get("error", "a grid"), case["history"])))
+        elif "error" not in sa:
+            ha, hb = arr(sa["out"], (h, w)), arr(fr["out"], (h, w))
+            if not ((ha == hb) | ((ha != ha) & (hb != hb))).all():
+                fails.append(("C08.dask.history", "call %d on a reused resampler differs from the same call on a fresh resampler (calls %s)" % (ci, case["history"])))
     if "error" in dk:
         lay = o.get("dask_c") is not None and "error" not in o["dask_c"]
         fails.append(("C08.dask.layout" if lay else "C08.dask.error", "DaskEWAResampler raised %s: %s%s" % (dk["error"], dk.get("msg"),
@@ -794,7 +840,8 @@ def run(ctx):
                 "fields (spacing 0.45..3 cells, rotation, curvature, NaN geolocation), float32/float64 data (smooth, noise, constant, integer, wide; "
                 "NaN / fill pixels; handed over C-contiguous or as strided views into larger arrays, Fortran-ordered, transposed-back, negative strides), rows_per_scan dividing the rows, weight parameters, average and maximum-weight mode; (c) scenes = area + lon/lat "
                 "swath + data run one-shot and through DaskEWAResampler for scan-aligned input chunkings and random output chunk partitions (plus the "
-                "legacy resampler), incl. the known-finding scene and the flipped design-round area; (d) write_grid_image_single on explicit arrays "
+                "legacy resampler), with persist=True/False and, for some, a history of 2-3 resample() calls on ONE resampler object (each compared with a fresh "
+                "object), incl. the known-finding scene and the flipped design-round area; (d) write_grid_image_single on explicit arrays "
                 "(float and int8 grids). A case is non-trivial when at least one grid cell receives >= 2 valid contributions (fornav/scene), at least "
                 "one pixel is counted in the grid (ll2cr), or a non-fill cell is written (wgrid); distinct = distinct inputs")
     n_ll = ctx.n(40, 500)
@@ -852,6 +899,8 @@ def run(ctx):
             ctx.count("fornav:fill_pixels")
         if case["geo"] != "plain":
             ctx.count("fornav:" + case["geo"])
+        if case.get("masked"):
+            ctx.count("fornav:masked_array_input")
         ctx.count("fornav:data_layout_" + case.get("layout", "c"))
         if case.get("geo_layout", "c") != "c":
             ctx.count("fornav:geoloc_layout_" + ("rejected" if "error" in (o.get("oneshot_geo") or {}) else "accepted"))
@@ -878,6 +927,11 @@ def run(ctx):
         ctx.count("scene:out_blocks=%d" % (len(case["out_chunks"][0]) * len(case["out_chunks"][1])))
         if ok and any(o["placeholders"]):
             ctx.count("scene:placeholder_chunk")
+        ctx.count("scene:persist=%s" % bool(case.get("persist")))
+        if case.get("history"):
+            ctx.count("scene:history_calls", len(case["history"]))
+        if case.get("legacy"):
+            ctx.count("scene:legacy_resampler")
         ctx.count("scene:data_layout_" + case.get("layout", "c"))
         ctx.count("scene:lonlat_layout_" + case.get("geo_layout", "c"))
         if info.get("dropped_reach"):
